@@ -272,6 +272,15 @@ def check_session_events(h, f=None, expect_liveness=True):
                              'but no disconnect event by t=%.4f (deadline '
                              '%.4f)%s' % (sid, s['c'], cz['kind'], cz['t'],
                                           f.end, deadline, blocked)))
+        if nd == 0 and sid not in h.final['table'] and \
+                s['connect'][0]['t'] < f.end - slack:
+            # sessions leave the table only after close(), which fires the
+            # event first
+            out.append(V('disconnect-missing',
+                         '%s|dropped-from-table-without-disconnect' % impl,
+                         'session %s (client %s) was accepted, never got a '
+                         'disconnect event, and is no longer known to the '
+                         'server at t=%.4f' % (sid, s['c'], f.end)))
         if nd >= 1:
             d = s['disconnect'][0]
             out.extend(_check_reason(f, sid, s, d, causes))
@@ -459,3 +468,712 @@ def outcome(h, violations, probes=None, nontrivial=True, extra=None):
         'leaked': h.leaked,
         'extra': extra or {},
     }
+
+
+# ===========================================================================
+# C03  server -> client delivery
+# ===========================================================================
+
+def _client_msgs(c):
+    """MESSAGE packets the client received: (order key, rec)."""
+    return [r for r in c.recv if r['ptype'] == R.MESSAGE]
+
+
+def _session_faulted(h, f, sid, c):
+    """True if something that may legitimately lose data hit this session."""
+    if c.stopped or c.session_over:
+        return True
+    if f.causes(sid):
+        return True
+    for fl in h.plan.get('faults', []):
+        if fl.get('c') == c.idx:
+            return True
+    if any(r.lost for r in h.world.requests if r.cidx == c.idx):
+        return True
+    return False
+
+
+def check_delivery(h, f=None):
+    f = f or Facts(h)
+    out = []
+    impl = f.impl
+    sends_by_sid = {}
+    for rec in h.app_sends:
+        sends_by_sid.setdefault(rec['sid'], []).append(rec)
+    all_keys = {}
+    for rec in h.app_sends:
+        all_keys.setdefault(_key(rec['val']), []).append(rec)
+    for sid, s in f.sess.items():
+        c = s['client']
+        if c is None or not s['accepted']:
+            continue
+        sends = sends_by_sid.get(sid, [])
+        mine = {}
+        for rec in sends:
+            mine.setdefault(_key(rec['val']), []).append(rec)
+        got = _client_msgs(c)
+        seen = {}
+        for r in got:
+            k = _key(r['data'])
+            if isinstance(r['data'], str) and \
+                    r['data'].startswith('reentrant'):
+                continue
+            if k not in all_keys:
+                out.append(V('delivery-integrity', '%s|unknown-payload|%s' %
+                             (impl, r['chan']),
+                             'client %d received %r on %s, which no send '
+                             'carried' % (c.idx, _short(r['data']),
+                                          r['chan'])))
+                continue
+            if k not in mine:
+                out.append(V('no-crosstalk', '%s|crosstalk|%s' % (impl,
+                                                                   r['chan']),
+                             'client %d (sid %s) received %r which was sent '
+                             'to %s' % (c.idx, sid, _short(r['data']),
+                                        all_keys[k][0]['sid'])))
+                continue
+            if k in seen and len(mine[k]) < 2:
+                out.append(V('at-most-once', '%s|duplicate|%s+%s' % (
+                    impl, seen[k]['chan'], r['chan']),
+                    'client %d received %r twice: on %s#%s and %s#%s' % (
+                        c.idx, _short(r['data']), seen[k]['chan'],
+                        seen[k]['ref'], r['chan'], r['ref'])))
+            seen.setdefault(k, r)
+        out.extend(_check_order(f, c, sid, got, mine))
+        out.extend(_check_noop_rule(f, c, sid))
+        out.extend(_check_early_switch(f, c, sid))
+        out.extend(_check_drain(f, h, c, sid, sends, seen))
+        if not _session_faulted(h, f, sid, c):
+            out.extend(_check_complete(f, h, c, sid, sends, seen))
+    return out
+
+
+def _short(v):
+    r = repr(v)
+    return r if len(r) < 50 else r[:47] + '...'
+
+
+def _send_before(a, b):
+    """Binding send order: a returned before b started."""
+    return a['seq_end'] is not None and b['seq_start'] is not None and \
+        a['seq_end'] < b['seq_start']
+
+
+def _check_order(f, c, sid, got, mine):
+    out = []
+    # contexts inside which the wire order is binding
+    ctx = {}
+    for r in got:
+        k = _key(r['data'])
+        if k not in mine or len(mine[k]) != 1:
+            continue
+        ctx.setdefault((r['chan'], r['ref']), []).append((r['pos'], r,
+                                                          mine[k][0]))
+    polls = {req.rid: req for req in c.polls}
+    for key, items in ctx.items():
+        items.sort(key=lambda x: x[0])
+        for i in range(len(items)):
+            for j in range(i + 1, len(items)):
+                if _send_before(items[j][2], items[i][2]):
+                    out.append(V('order', '%s|order-within|%s' % (f.impl,
+                                                                  key[0]),
+                                 'client %d: %r delivered before %r inside '
+                                 '%s#%s although it was sent after it' % (
+                                     c.idx, _short(items[i][1]['data']),
+                                     _short(items[j][1]['data']), key[0],
+                                     key[1])))
+    # successive non-overlapping polls
+    plist = sorted([(polls[k[1]], v) for k, v in ctx.items()
+                    if k[0] == 'poll' and k[1] in polls],
+                   key=lambda x: x[0].seq_issue)
+    for a in range(len(plist)):
+        for b in range(a + 1, len(plist)):
+            ra, rb = plist[a][0], plist[b][0]
+            if ra.seq_resp is None or ra.seq_resp > rb.seq_issue:
+                continue     # overlapping: exempt
+            for (_, r1, s1) in plist[a][1]:
+                for (_, r2, s2) in plist[b][1]:
+                    if _send_before(s2, s1):
+                        out.append(V('order', '%s|order-across-polls' %
+                                     f.impl,
+                                     'client %d: %r arrived in poll %d, '
+                                     'before %r in the later poll %d, '
+                                     'although sent after it' % (
+                                         c.idx, _short(r1['data']), ra.rid,
+                                         _short(r2['data']), rb.rid)))
+    return out
+
+
+def _check_noop_rule(f, c, sid):
+    out = []
+    for req in c.polls:
+        if req.status != 200 or req.seq_resp is None:
+            continue
+        ph = getattr(req, 'upg_phase', 'none')
+        msgs = [r for r in c.recv if r['chan'] == 'poll' and
+                r['ref'] == req.rid and r['ptype'] == R.MESSAGE]
+        if not msgs:
+            continue
+        u = None
+        for cand in c.upgrades:
+            if cand['seq_start'] <= req.seq_issue and \
+                    (cand.get('seq_end') is None or
+                     req.seq_issue <= cand['seq_end'] or cand.get('ok')):
+                u = cand
+        if u is None:
+            continue
+        if ph == 'sent5':
+            out.append(V('one-transport', '%s|message-on-poll-after-upgrade'
+                         % f.impl,
+                         'client %d: poll %d was issued after the client '
+                         'sent UPGRADE and still carried %d message(s): %r'
+                         % (c.idx, req.rid, len(msgs),
+                            _short(msgs[0]['data']))))
+        elif ph == 'probed':
+            nxt = u.get('seq_sent5') or u.get('seq_end')
+            if nxt is not None and req.seq_resp < nxt:
+                out.append(V('one-transport', '%s|message-on-poll-during-'
+                             'handshake' % f.impl,
+                             'client %d: poll %d lived entirely between '
+                             '3probe and the client\'s next step on the '
+                             'upgrade socket but carried %r' % (
+                                 c.idx, req.rid, _short(msgs[0]['data']))))
+    return out
+
+
+def _check_early_switch(f, c, sid):
+    out = []
+    for u in c.upgrades:
+        conn = u['conn']
+        seq5 = None
+        for (s, t, d) in conn.recv_s:
+            if d == '5':
+                seq5 = s
+                break
+        for (s, t, d) in conn.sent_s:
+            is_msg = isinstance(d, (bytes, bytearray)) or \
+                (isinstance(d, str) and d.startswith('4'))
+            if is_msg and (seq5 is None or s < seq5):
+                out.append(V('no-early-switch', '%s|message-before-upgrade'
+                             % f.impl,
+                             'client %d: upgrade socket %d carried %r before '
+                             'the server had received UPGRADE on it' % (
+                                 c.idx, conn.wid, _short(d))))
+                break
+    return out
+
+
+def _accepted(rec):
+    """A send counts as accepted if the session was live when it returned."""
+    if rec['seq_end'] is None or rec.get('exc'):
+        return False
+    b, a = rec.get('before'), rec.get('after')
+    if b is None or b['closed'] or b['closing']:
+        return False
+    if a is None or a['closed'] or a['closing']:
+        return False
+    return True
+
+
+def _check_drain(f, h, c, sid, sends, seen):
+    out = []
+    if c.upgrades or c.open_ws is not None:
+        return out
+    polls = [r for r in c.polls]
+    for i, req in enumerate(polls):
+        if req.status != 200 or req.seq_arrive is None or \
+                req.seq_done is None:
+            continue
+        if getattr(req, 'poll_out_at_issue', 1) != 0 or \
+                not getattr(req, 'processed', False):
+            continue
+        # no other poll may overlap this one
+        if any(o is not req and o.seq_issue < req.seq_resp and
+               (o.seq_resp is None or o.seq_resp > req.seq_issue)
+               for o in polls if req.seq_resp is not None):
+            continue
+        if any(o.method == 'GET' and ('sid=' + sid) in o.query for o in
+               c.raws):
+            continue
+        for rec in sends:
+            if not _accepted(rec) or rec['t_end'] >= req.t_arrive - EPS:
+                continue
+            k = _key(rec['val'])
+            r = seen.get(k)
+            if r is not None and (r['chan'] != 'poll' or
+                                  r['ref'] != req.rid):
+                # delivered elsewhere: fine if that was an earlier response
+                other = next((p for p in polls if p.rid == r['ref']), None)
+                if other is not None and other.seq_done is not None and \
+                        other.seq_done < req.seq_arrive:
+                    continue
+                if r['chan'] != 'poll':
+                    continue
+            if r is not None and r['ref'] == req.rid:
+                continue
+            out.append(V('drain', '%s|poll-left-message-behind' % f.impl,
+                         'client %d: poll %d reached the server at t=%.4f '
+                         'but did not return %r, accepted at t=%.4f and not '
+                         'handed over before' % (c.idx, req.rid,
+                                                 req.t_arrive,
+                                                 _short(rec['val']),
+                                                 rec['t_end'])))
+            break
+    return out
+
+
+def _check_complete(f, h, c, sid, sends, seen):
+    out = []
+    if not c.autopoll or c.poll_stop is not None:
+        return out
+    settle = 1.0 + c.poll_gap * 4
+    for rec in sends:
+        if not _accepted(rec):
+            continue
+        if rec['t_end'] > f.end - settle:
+            continue
+        k = _key(rec['val'])
+        if k in seen:
+            continue
+        if isinstance(rec['val'], str) and rec['val'].startswith(
+                'reentrant'):
+            continue
+        ph = [u for u in c.upgrades]
+        shape = 'polling'
+        if c.open_ws is not None:
+            shape = 'websocket'
+        elif ph:
+            shape = 'upgrade-' + ('ok' if any(u.get('ok') for u in ph)
+                                  else 'failed')
+        out.append(V('complete', '%s|lost-message|%s' % (f.impl, shape),
+                     'client %d (sid %s, %s): %r was accepted at t=%.4f, '
+                     'the session stayed open and the client kept reading '
+                     'until t=%.4f, but it never arrived' % (
+                         c.idx, sid, shape, _short(rec['val']),
+                         rec['t_end'], f.end)))
+        break
+    return out
+
+
+# ===========================================================================
+# C04  client -> server dispatch
+# ===========================================================================
+
+def check_dispatch(h, f=None):
+    f = f or Facts(h)
+    out = []
+    impl = f.impl
+    limit = h.world.app_opts.get('max_decode_packets', 16)
+    maxsize = h.world.server.max_http_buffer_size
+    for sid, s in f.sess.items():
+        c = s['client']
+        if c is None or not s['accepted']:
+            continue
+        causes = f.causes(sid)
+        first_end = min([cz['t'] for cz in causes], default=None)
+        units = []      # (kind, ref, t_arrive, seq_arrive, [payload...], obj)
+        optional = []   # payloads that may or may not produce an event
+        for req in c.posts + [r for r in c.raws if r.method == 'POST']:
+            if req.seq_arrive is None or ('sid=' + sid) not in req.query:
+                continue
+            declared = len(req.body) if req.declared is None \
+                else _int(req.declared)
+            exp = None
+            if declared is None or declared > maxsize:
+                exp = []
+            else:
+                try:
+                    pk = R.ref_payload_decode(
+                        req.body[:declared].decode('utf-8'), limit)
+                except (R.RefError, UnicodeDecodeError):
+                    exp = []
+                    pk = None
+                if pk is not None:
+                    out.extend(_check_refused_type(
+                        f, h, sid, s, req, pk,
+                        min([cz['t'] for cz in causes
+                             if cz['seq'] != req.seq_arrive],
+                            default=None)))
+                    exp = []
+                    grey = False
+                    after_close = False
+                    for (pt, d, cert) in pk:
+                        if cert != 'exact' or pt is None:
+                            grey = True
+                            break
+                        if pt == R.MESSAGE:
+                            if after_close:
+                                optional.append(d)   # rule 1: 0 or 1 event
+                            else:
+                                exp.append(d)
+                        elif pt in (R.PONG, R.UPGRADE):
+                            continue
+                        elif pt == R.CLOSE:
+                            after_close = True
+                        else:
+                            break       # refused type terminates the body
+                    if grey:
+                        continue
+            units.append(('post', req.rid, req.t_arrive, req.seq_arrive,
+                          exp, req))
+        conns = []
+        for conn in (f.main_ws(sid), f.server_upgraded_conn(sid)):
+            if conn is not None and conn not in conns:
+                conns.append(conn)
+        for conn in conns:
+            started = conn is c.open_ws
+            exp = []
+            ws_closed = False
+            for (sq, t, d) in conn.recv_s:
+                if not started:
+                    if d == '5':
+                        started = True
+                    continue
+                try:
+                    pt, val, cert = R.ref_decode(d)
+                except R.RefError:
+                    break           # undecodable frame: handler gives up
+                if isinstance(d, (str, bytes)) and len(d) > maxsize:
+                    break
+                if cert != 'exact':
+                    exp = None
+                    break
+                if pt == R.MESSAGE:
+                    if ws_closed:
+                        optional.append(val)
+                    else:
+                        exp.append((val, t, sq))
+                elif pt == R.CLOSE:
+                    ws_closed = True
+            if exp is None:
+                continue
+            units.append(('ws', conn.wid, None, None, exp, conn))
+        events = list(s['message'])
+        used = [False] * len(events)
+        dsc = s['disconnect'][0] if s['disconnect'] else None
+        for (kind, ref, t_arr, seq_arr, exp, obj) in units:
+            idxs = []
+            for item in exp:
+                val, t_item, sq_item = (item if kind == 'ws'
+                                        else (item, t_arr, seq_arr))
+                hit = [i for i, e in enumerate(events)
+                       if not used[i] and R.same_value(e['arg'], val)]
+                live = (first_end is None or t_item < first_end - EPS) and \
+                    (dsc is None or sq_item < dsc['seq'])
+                if not hit:
+                    if live:
+                        loose = [e for e in events
+                                 if _loosely_equal(e['arg'], val)]
+                        why = 'changed-payload' if loose else 'lost'
+                        out.append(V('dispatch-exactly-once',
+                                     '%s|%s|%s' % (impl, why, kind),
+                                     'session %s: %s %s carried MESSAGE %r '
+                                     'at t=%.4f (session live) but %s' % (
+                                         sid, kind, ref, _short(val), t_item,
+                                         'the handler got %r' % _short(
+                                             loose[0]['arg']) if loose else
+                                         'no message event fired')))
+                    continue
+                used[hit[0]] = True
+                idxs.append(hit[0])
+            if not f.async_handlers and idxs != sorted(idxs):
+                out.append(V('dispatch-order', '%s|out-of-order|%s' % (
+                    impl, kind), 'session %s: synchronous handlers saw the '
+                    'messages of %s %s in order %r' % (sid, kind, ref,
+                                                       idxs)))
+        sent_keys = set()
+        for m in c.sent_msgs:
+            sent_keys.add(_key(m['val']))
+        for i, e in enumerate(events):
+            if used[i]:
+                continue
+            opt = [j for j, v in enumerate(optional)
+                   if R.same_value(v, e['arg'])]
+            if opt:
+                del optional[opt[0]]
+                continue
+            # an event nobody asked for
+            dup = any(R.same_value(e['arg'], (it[0] if k_ == 'ws' else it))
+                      for (k_, _r, _t, _s, ex_, _o) in units for it in ex_)
+            if dup:
+                out.append(V('dispatch-exactly-once',
+                             '%s|duplicate-event' % impl,
+                             'session %s: message event %r at t=%.4f fired '
+                             'more often than the MESSAGE was received' % (
+                                 sid, _short(e['arg']), e['t'])))
+                continue
+            out.append(V('dispatch-spurious', '%s|spurious-event' % impl,
+                         'session %s: message event %r at t=%.4f matches no '
+                         'MESSAGE the reference dispatcher would deliver '
+                         '(undecodable/over-limit body, packet after CLOSE, '
+                         'or changed payload)' % (sid, _short(e['arg']),
+                                                  e['t'])))
+    return out
+
+
+def _check_refused_type(f, h, sid, s, req, pk, first_end):
+    """A refused type in a POST body to a live session: the request fails
+    (400) and the session ends."""
+    out = []
+    bad = None
+    for (pt, d, cert) in pk:
+        if cert != 'exact' or pt is None:
+            return out
+        if pt == R.CLOSE:
+            return out
+        if pt in REFUSED_TYPES:
+            bad = pt
+            break
+    if bad is None:
+        return out
+    if first_end is not None and first_end <= req.t_arrive + EPS:
+        return out          # the session was already ending
+    if req.t_arrive > f.end - 0.5 - f.handler_sleep:
+        return out
+    if req.status is None:
+        stuck = [b for b in (h.final.get('blocked') or [])
+                 if b[0] == 'W%d' % req.rid]
+        if f.impl == 'asyncio':
+            stuck = [1]
+        out.append(V('refused-type-fails-request',
+                     '%s|refused-type-post-never-answered' % f.impl,
+                     'session %s: POST %d carried packet type %d at t=%.4f; '
+                     'the request was still unanswered at t=%.4f%s' % (
+                         sid, req.rid, bad, req.t_arrive, f.end,
+                         ' (worker blocked in %s)' % stuck[0][1]
+                         if stuck and stuck != [1] else '')))
+    elif req.status != 400:
+        out.append(V('refused-type-fails-request',
+                     '%s|refused-type-accepted|type=%d' % (f.impl, bad),
+                     'session %s: POST %d carried packet type %d to a live '
+                     'session and was answered %s instead of 400' % (
+                         sid, req.rid, bad, req.status)))
+    if req.status is not None and not s['disconnect']:
+        out.append(V('refused-type-ends-session',
+                     '%s|refused-type-session-kept|type=%d' % (f.impl, bad),
+                     'session %s: POST %d carried packet type %d but the '
+                     'session got no disconnect event' % (sid, req.rid,
+                                                          bad)))
+    return out
+
+
+def _loosely_equal(a, b):
+    try:
+        if a == b:
+            return True
+        if isinstance(a, (bytes, bytearray)) and isinstance(b, str):
+            return bytes(a) == b.encode()
+        if isinstance(b, (bytes, bytearray)) and isinstance(a, str):
+            return bytes(b) == a.encode()
+        return str(a) == str(b)
+    except Exception:
+        return False
+
+
+# ===========================================================================
+# C06  upgrade handshake
+# ===========================================================================
+
+def _server_handshake(conn):
+    """(ok, seq_of_completion): did the *server* see 2probe, send 3probe and
+    then see 5, in that order, on this socket?"""
+    r = conn.recv_s
+    sent = conn.sent_s
+    if len(r) < 2 or r[0][2] != '2probe' or r[1][2] != '5':
+        return (False, None)
+    if not sent or sent[0][2] != '3probe':
+        return (False, None)
+    if not (r[0][0] < sent[0][0] < r[1][0]):
+        return (False, None)
+    return (True, r[1][0])
+
+
+def check_upgrade(h, f=None):
+    f = f or Facts(h)
+    out = []
+    impl = f.impl
+    transports = h.world.server.transports
+    for sid, s in f.sess.items():
+        c = s['client']
+        if c is None or not s['accepted']:
+            continue
+        direct = c.open_ws is not None
+        # observations of the session's transport
+        obs = []
+        for u in c.upgrades:
+            if u.get('snap_after'):
+                obs.append(u['snap_after'])
+        for (sq, t, snap) in h.snaps:
+            if sid in snap:
+                obs.append((sq, t, snap[sid]))
+        if sid in h.final['table']:
+            obs.append((h.k.seq + 1, f.end, h.final['table'][sid]))
+        done = [(_server_handshake(u['conn']), u) for u in c.upgrades]
+        first_ok = min([hs[1] for hs, u in done if hs[0]], default=None)
+        for (sq, t, st) in obs:
+            if st is None:
+                continue
+            if st['upgraded'] and not direct and (first_ok is None or
+                                                  sq < first_ok):
+                out.append(V('upgrade-only-via-handshake',
+                             '%s|upgraded-without-handshake' % impl,
+                             'session %s reports transport websocket at '
+                             't=%.4f but no upgrade socket had seen 2probe, '
+                             '3probe, 5 in order (frames seen: %r)' % (
+                                 sid, t, [[d for _, _, d in u['conn'].recv_s
+                                           ][:4] for u in c.upgrades])))
+                break
+            if direct and not st['upgraded'] and not st['closed']:
+                out.append(V('direct-ws-mode', '%s|direct-ws-not-websocket'
+                             % impl, 'session %s was opened over WebSocket '
+                             'but reports polling at t=%.4f' % (sid, t)))
+                break
+        # failed handshakes are harmless
+        for n, (hs, u) in enumerate(done):
+            if hs[0] or u.get('ok'):
+                continue
+            if not u.get('finished') or u['conn'].blackholed:
+                continue    # (a black-holed socket has not failed as far
+                #             as the server can tell: it legitimately waits)
+            t_fail = u['t_end'] + 16 * TICK
+            later_up = [x for x in c.upgrades if x['t_start'] > u['t_start']]
+            t_next = later_up[0]['t_start'] if later_up else f.end
+            snap = u.get('snap_after')
+            ended = s['disconnect'] and s['disconnect'][0]['t'] <= t_fail
+            if snap and snap[2] is not None and snap[2]['upgraded'] and \
+                    first_ok is None and not ended and not direct:
+                out.append(V('failed-upgrade-stays-polling',
+                             '%s|upgraded-after-failed-handshake' % impl,
+                             'session %s: handshake %d failed (%s) but the '
+                             'session reports websocket' % (
+                                 sid, n, _steps(u))))
+            # polls after the failure must hand out what is queued
+            stuck = []
+            for req in c.polls:
+                if req.t_issue is None or req.t_issue < t_fail or \
+                        req.t_issue >= t_next or req.status != 200 or \
+                        not getattr(req, 'processed', False):
+                    continue
+                pk = [r for r in c.recv if r['chan'] == 'poll' and
+                      r['ref'] == req.rid]
+                if pk and all(r['ptype'] == R.NOOP for r in pk) and \
+                        req.t_done is not None and \
+                        req.t_done - req.t_arrive < TICK / 2:
+                    stuck.append(req)
+                else:
+                    stuck = []
+                if len(stuck) >= 3:
+                    out.append(V('failed-upgrade-harmless',
+                                 '%s|noop-forever-after-failed-handshake|%s'
+                                 % (impl, _fail_shape(u)),
+                                 'session %s: after handshake %d failed '
+                                 '(%s) at t=%.4f, polls %r were answered '
+                                 'with NOOP only: queued packets are no '
+                                 'longer retrievable' % (
+                                     sid, n, _steps(u), u['t_end'],
+                                     [r.rid for r in stuck])))
+                    break
+            # a later, correct handshake must succeed
+            if later_up and not ended and not direct and \
+                    u.get('refused') is None and \
+                    'websocket' in transports and 'polling' in transports:
+                nxt = later_up[0]
+                conformant = nxt['spec'].get('steps') is None
+                quiet = not [cz for cz in f.causes(sid)
+                             if cz['t'] <= (nxt.get('t_end') or f.end) + 1]
+                # (a client with overlapping polls is not conformant: the
+                # server's single NOOP releases one poll only)
+                quiet = quiet and not c.spec.get('poll', {}).get('extra') \
+                    and not any(fl.get('c') == c.idx
+                                for fl in h.plan.get('faults', []))
+                if conformant and quiet and nxt.get('finished') and \
+                        nxt['t_start'] >= t_fail and not nxt.get('ok') and \
+                        not c.stopped:
+                    out.append(V('later-upgrade-possible',
+                                 '%s|later-upgrade-refused|%s' % (
+                                     impl, _fail_shape(u)),
+                                 'session %s: after failed handshake %d '
+                                 '(%s) a fresh, correct handshake was not '
+                                 'accepted (refused=%r, frames got %r)' % (
+                                     sid, n, _steps(u), nxt.get('refused'),
+                                     [d for _, _, d in nxt['got']][:3])))
+        # a completed upgrade refuses further ones
+        if first_ok is not None:
+            okc = [u['conn'] for (hs, u) in done if hs[0]][0]
+            for (hs, u) in done:
+                conn = u['conn']
+                if conn is okc or conn.req.seq_arrive is None:
+                    continue
+                if conn.req.seq_arrive > first_ok and conn.sent_s:
+                    out.append(V('second-upgrade-refused',
+                                 '%s|second-upgrade-carried-packets' % impl,
+                                 'session %s: already upgraded, yet a '
+                                 'second upgrade socket carried %r' % (
+                                     sid, [d for _, _, d in conn.sent_s][:3]
+                                 )))
+                if conn.req.seq_arrive > first_ok and okc.server_closed \
+                        and not f.causes(sid) and not s['disconnect']:
+                    out.append(V('second-upgrade-refused',
+                                 '%s|second-upgrade-disturbed-first' % impl,
+                                 'session %s: the established WebSocket was '
+                                 'closed by the server after a second '
+                                 'upgrade attempt' % sid))
+    # forbidden transports
+    if 'websocket' not in transports:
+        for conn in h.world.wsconns:
+            if conn.sent_s:
+                out.append(V('forbidden-transport',
+                             '%s|websocket-used-though-not-allowed' % impl,
+                             'transports=%r but WebSocket %d (query %r) '
+                             'carried %r' % (transports, conn.wid,
+                                             conn.req.query,
+                                             [d for _, _, d in
+                                              conn.sent_s][:2])))
+                break
+    if 'polling' not in transports:
+        for req in h.world.requests:
+            if req.kind == 'http' and req.status == 200 and \
+                    req.method in ('GET', 'POST') and \
+                    req.path.startswith('/engine.io/'):
+                out.append(V('forbidden-transport',
+                             '%s|polling-used-though-not-allowed' % impl,
+                             'transports=%r but %s %r was answered 200' % (
+                                 transports, req.method, req.query)))
+                break
+    return out
+
+
+def _steps(u):
+    st = u['spec'].get('steps')
+    if st is None:
+        return 'conformant steps'
+    return '/'.join(str(x[1] if len(x) > 1 else x[0]) for x in st)[:60]
+
+
+def _fail_shape(u):
+    """Stable classification of how a handshake was sabotaged."""
+    st = u['spec'].get('steps') or []
+    sent = [x[1] for x in st if x[0] == 'send']
+    ops = [x[0] for x in st]
+    if u.get('refused') is not None:
+        return 'refused'
+    first = sent[0] if sent else None
+    if first is None:
+        return 'closed-before-probe'
+    if first != '2probe':
+        if first == '' or (isinstance(first, str) and first[:1] not in
+                           '0123456789b'):
+            return 'undecodable-first-frame'
+        if isinstance(first, str) and len(first) > 64:
+            return 'oversize-first-frame'
+        return 'wrong-first-frame'
+    if len(sent) == 1:
+        return 'closed-after-probe' if ('close' in ops or 'drop' in ops) \
+            else 'silent-after-probe'
+    second = sent[1]
+    if second == '' or (isinstance(second, str) and second[:1] not in
+                        '0123456789b'):
+        return 'undecodable-second-frame'
+    if isinstance(second, str) and len(second) > 64:
+        return 'oversize-second-frame'
+    return 'wrong-second-frame'
